@@ -58,7 +58,8 @@ def run(prop):
                 res.append({"kind": kind, "name": name, "ok": None, "detail": "skipped: " + err})
             elif kind == "must-fire":
                 rc, viol = r
-                res.append({"kind": kind, "name": name, "ok": rc == 1 and bool(viol), "detail": "exit %d, reported: %s" % (rc, viol[:4])})
+                rules = sorted(set(v.split()[0] for v in viol if v))
+                res.append({"kind": kind, "name": name, "ok": rc == 1 and bool(viol), "rules": rules, "detail": "exit %d, rules %s, reported: %s" % (rc, rules, viol[:3])})
             else:
                 rc, viol = r
                 res.append({"kind": kind, "name": name, "ok": rc == 0, "detail": "exit %d%s" % (rc, (", false alarms: %s" % viol[:4]) if viol else "")})
